@@ -252,6 +252,7 @@ type pathCtx struct {
 	facts                                                       map[*Term]rng
 	clock                                                       int64
 	rangeHits                                                   int
+	bridgeName                                                  string
 	stack                                                       []*frame
 	panicStack                                                  string
 }
